@@ -173,6 +173,18 @@ def run_case(ctx, rep, case, base_dir, model_ok):
                         lockstate["stale"].add(a)
                 env.fake.hook = s3hook
                 for ai in handles:
+                    lp_ = handles[ai].metadata_manager.lock_provider
+                    if hasattr(lp_, "is_held"):
+                        o_held = lp_.is_held
+
+                        def held_(_o=o_held, _ai=ai):
+                            r_ = _o()
+                            if r_ and lockstate["owner"] not in (_ai, None):
+                                lockstate["stale"].add(_ai)     # the fence said "held" although another committer owns the lock object
+                                lockstate.setdefault("unsound", []).append(_ai)
+                            return r_
+                        lp_.is_held = held_
+                for ai in handles:
                     st_ = handles[ai].storage
                     for mth in ("write_file", "write_file_cas"):
                         if hasattr(st_, mth):
@@ -188,9 +200,14 @@ def run_case(ctx, rep, case, base_dir, model_ok):
                 # scheduling points at S3 REQUEST granularity (a storage method may issue several requests)
                 prev_hook = env.fake.hook
 
+                put_fault = {"left": 1 if case.get("hint_put_fault") else 0}
+
                 def req_hook(phase, op, key, kw, _prev=prev_hook):
                     if phase == "before" and S.actor() is not None:
                         S.gate(f"s3.{op}")
+                        if put_fault["left"] and op == "put" and S.actor() == 1 and str(key).endswith("metadata.version-hint.text"):
+                            put_fault["left"] -= 1      # the conditional pointer PUT times out in flight (it did not take effect)
+                            raise fakes3.client_error("RequestTimeout", "PutObject")
                     if _prev is not None:
                         _prev(phase, op, key, kw)
                 env.fake.hook = req_hook
